@@ -560,7 +560,7 @@ META["C19"] = dict(
         "mon.group_config_in_subcommand_section": g(100, 1000), "mon.list_file_on_argv": g(100, 1000),
         "st.nested.config_dir_through_symlink": g(300, 3000), "st.nested.append_key_with_relative_paths": g(100, 1000),
         "mon.path_type_in_parser_checks": g(500, 5000),
-        "mon.path_mode_checks": g(10000, 150000), "st.accept": g(500, 8000), "st.reject": g(5000, 80000),
+        "mon.path_mode_checks": g(10000, 50000), "st.accept": g(500, 5000), "st.reject": g(5000, 40000),
         "permission_bits_enforced": g(4, 16),
         "st.kind.f000": g(100, 1000), "st.kind.d333": g(100, 1000), "st.kind.through-file": g(100, 1000), "st.kind.dangling-symlink": g(100, 1000),
         "mon.nested_config_parses": g(300, 3000), "mon.relative_paths_checked": g(200, 2000),
